@@ -80,7 +80,10 @@ def qual_of(ex, fn):
     obj, name = fn.payload
     if isinstance(obj, VRecord):
       f = RECORD_CLASSES[obj.kind.rname][0]
-      return f'{f}::{obj.kind.rname}.{name}'
+      q = f'{f}::{obj.kind.rname}.{name}'
+      if obj.kind.name.endswith('A') and q + '#abstract' in C.REGISTRY:
+        return q + '#abstract'
+      return q
   raise OutOfSubset(f'cannot name callee {fn!r}')
 
 
